@@ -381,51 +381,130 @@ add('HeatEquation_Chebychev.Heat2DChebychev', '8x9,nyquist', dict(nx=8, ny=9, a=
 
 ABSTRACT = {'generic_spectral.GenericSpectralLinear': 'abstract base class (needs bases/components; covered through its six subclasses)'}
 
-# split siblings: (split variant key, label) -> (unsplit key, label-or-None (same label), how)
+# --------------------------------------------------------------------------------------------- split siblings
+# Groups of classes that are different splittings of the SAME right-hand side.  The parameters are DRAWN per trial from a
+# small grid (shared by all members through the mapper) that contains, for every scalar parameter, values different from
+# every numeric literal in the source of the member classes (see source_literals): a constant that is hard-coded in one
+# piece but parametrised in the other only shows for non-default parameters.
+
+def _same(d):
+    return dict(d)
+
+
+def _arr(x):
+    return np.array(x, dtype=float)
+
+
 SIBLINGS = [
-    # (name, [(key, params, parts)], ...) : all members evaluated at the same (u, t); sums of parts must agree
-    ('heat', [('HeatEquation_ND_FD.heatNd_unforced', dict(nvars=16, nu=0.3, bc='periodic', order=4), ['full']),
-              ('HeatEquation_ND_FD.heatNd_forced', dict(nvars=16, nu=0.3, bc='periodic', order=4), ['impl'])], st_uniform()),
-    ('heat2d', [('HeatEquation_ND_FD.heatNd_unforced', dict(nvars=(6, 6), nu=0.3, bc='periodic', order=2, freq=(2, 2)), ['full']),
-                ('HeatEquation_ND_FD.heatNd_forced', dict(nvars=(6, 6), nu=0.3, bc='periodic', order=2, freq=(2, 2)), ['impl']),
-                ('generic_ND_FD.GenericNDimFinDiff', dict(nvars=(6, 6), coeff=0.3, derivative=2, bc='periodic', order=2, freq=(2, 2)), ['full'])], st_uniform()),
-    ('advection', [('AdvectionEquation_ND_FD.advectionNd', dict(nvars=16, c=0.8, order=3, stencil_type='upwind'), ['full']),
-                   ('generic_ND_FD.GenericNDimFinDiff', dict(nvars=16, coeff=-0.8, derivative=1, order=3, stencil_type='upwind', bc='periodic'), ['full'])],
-     st_uniform()),
-    ('advdiff-fft', [('AdvectionDiffusionEquation_1D_FFT.advectiondiffusion1d_implicit', dict(nvars=16, c=0.7, freq=2, nu=0.05), ['full']),
-                     ('AdvectionDiffusionEquation_1D_FFT.advectiondiffusion1d_imex', dict(nvars=16, c=0.7, freq=2, nu=0.05), ['impl', 'expl'])], st_uniform()),
-    ('ac1d-front', [(AC1 + 'allencahn_front_fullyimplicit', dict(nvars=31, eps=0.04, dw=-0.04), ['full']),
-                    (AC1 + 'allencahn_front_semiimplicit', dict(nvars=31, eps=0.04, dw=-0.04), ['impl', 'expl'])], st_front),
-    ('ac1d-periodic', [(AC1 + 'allencahn_periodic_fullyimplicit', dict(nvars=32, eps=0.04, dw=-0.04), ['full']),
-                       (AC1 + 'allencahn_periodic_semiimplicit', dict(nvars=32, eps=0.04, dw=-0.04), ['impl', 'expl']),
-                       (AC1 + 'allencahn_periodic_multiimplicit', dict(nvars=32, eps=0.04, dw=-0.04), ['comp1', 'comp2'])], st_front),
-    ('ac2d-fd', [(AC2 + 'allencahn_fullyimplicit', dict(nvars=(8, 8), eps=0.1, nu=2), ['full']),
-                 (AC2 + 'allencahn_semiimplicit', dict(nvars=(8, 8), eps=0.1, nu=2), ['impl', 'expl']),
-                 (AC2 + 'allencahn_semiimplicit_v2', dict(nvars=(8, 8), eps=0.1, nu=2), ['impl', 'expl']),
-                 (AC2 + 'allencahn_multiimplicit', dict(nvars=(8, 8), eps=0.1, nu=2), ['comp1', 'comp2']),
-                 (AC2 + 'allencahn_multiimplicit_v2', dict(nvars=(8, 8), eps=0.1, nu=2), ['comp1', 'comp2'])], st_phase2d),
-    ('ac2d-fd-nu4', [(AC2 + 'allencahn_fullyimplicit', dict(nvars=(6, 6), eps=0.2, nu=4, order=4), ['full']),
-                     (AC2 + 'allencahn_semiimplicit', dict(nvars=(6, 6), eps=0.2, nu=4, order=4), ['impl', 'expl']),
-                     (AC2 + 'allencahn_semiimplicit_v2', dict(nvars=(6, 6), eps=0.2, nu=4, order=4), ['impl', 'expl']),
-                     (AC2 + 'allencahn_multiimplicit', dict(nvars=(6, 6), eps=0.2, nu=4, order=4), ['comp1', 'comp2']),
-                     (AC2 + 'allencahn_multiimplicit_v2', dict(nvars=(6, 6), eps=0.2, nu=4, order=4), ['comp1', 'comp2'])], st_phase2d),
-    ('ac2d-fft', [('AllenCahn_2D_FFT.allencahn2d_imex', dict(nvars=(8, 8), eps=0.1, nu=2), ['impl', 'expl']),
-                  ('AllenCahn_2D_FFT.allencahn2d_imex_stab', dict(nvars=(8, 8), eps=0.1, nu=2), ['impl', 'expl'])], st_phase2d),
-    ('quench', [('Quench.Quench', dict(nvars=32, leak_type='linear', leak_transition='step'), ['full']),
-                ('Quench.QuenchIMEX', dict(nvars=32, leak_type='linear', leak_transition='step'), ['impl', 'expl'])], st_quench),
-    ('quench-exp', [('Quench.Quench', dict(nvars=32, leak_type='exponential', leak_transition='Gaussian', bc='dirichlet-zero'), ['full']),
-                    ('Quench.QuenchIMEX', dict(nvars=32, leak_type='exponential', leak_transition='Gaussian', bc='dirichlet-zero'), ['impl', 'expl'])], st_quench),
-    ('testeq', [('TestEquation_0D.testequation0d', dict(lambdas=_lam(2, 4) + _lam(3, 4)), ['full']),
-                ('TestEquation_0D.test_equation_IMEX', dict(lambdas_implicit=_lam(2, 4), lambdas_explicit=_lam(3, 4)), ['impl', 'expl'])], st_uniform()),
-    ('swfw', [('TestEquation_0D.testequation0d', dict(lambdas=np.array([-100j - 1.0 + 0.5j, -10.0 + 2j - 1.0 + 0.5j, -1000.0 - 1.0 + 0.5j])), ['full']),
-              ('FastWaveSlowWave_0D.swfw_scalar', dict(lambda_s=np.array([-1.0 + 0.5j]), lambda_f=np.array([-100j, -10.0 + 2j, -1000.0])), ['impl', 'expl'])],
-     st_uniform()),
-    ('polynomial', [('polynomial_test_problem.polynomial_testequation', dict(degree=4, seed=5), ['full']),
-                    ('polynomial_test_problem.polynomial_testequation_IMEX', dict(degree=4, seed=5), ['impl', 'expl'])], st_uniform()),
-    ('battery', [('Battery.battery_implicit', dict(), ['full']), ('Battery.battery', dict(), ['impl', 'expl'])], st_uniform(0.0, 2.0)),
-    ('battery-L2', [('Battery.battery_implicit', dict(L=2.0, Vs=4.0), ['full']), ('Battery.battery', dict(L=2.0, Vs=4.0), ['impl', 'expl'])], st_uniform(0.0, 2.0)),
-    ('battery-n1', [('Battery.battery', dict(), ['impl', 'expl']), ('Battery.battery_n_capacitors', dict(ncapacitors=1), ['impl', 'expl'])], st_uniform(0.0, 2.0)),
+    dict(name='heat', state=st_uniform(),
+         grid=dict(nvars=[16, 12], nu=[0.3, 0.1, 0.73], order=[4, 2, 6], bc=['periodic'], freq=[2]),
+         members=[('HeatEquation_ND_FD.heatNd_unforced', _same, ['full']),
+                  ('HeatEquation_ND_FD.heatNd_forced', _same, ['impl']),
+                  ('generic_ND_FD.GenericNDimFinDiff', lambda d: dict(nvars=d['nvars'], coeff=d['nu'], derivative=2, order=d['order'], bc=d['bc'], freq=d['freq']),
+                   ['full'])]),
+    dict(name='heat-dirichlet', state=st_uniform(),
+         grid=dict(nvars=[15, 11], nu=[0.37, 0.1], order=[2, 4], bc=['dirichlet-zero', 'neumann-zero'], freq=[1]),
+         members=[('HeatEquation_ND_FD.heatNd_unforced', _same, ['full']),
+                  ('HeatEquation_ND_FD.heatNd_forced', _same, ['impl']),
+                  ('generic_ND_FD.GenericNDimFinDiff', lambda d: dict(nvars=d['nvars'], coeff=d['nu'], derivative=2, order=d['order'], bc=d['bc'], freq=d['freq']),
+                   ['full'])]),
+    dict(name='heat2d', state=st_uniform(),
+         grid=dict(nvars=[(6, 6)], nu=[0.3, 0.1, 0.73], order=[2, 4], bc=['periodic'], freq=[(2, 2), (2, 4)]),
+         members=[('HeatEquation_ND_FD.heatNd_unforced', _same, ['full']),
+                  ('HeatEquation_ND_FD.heatNd_forced', _same, ['impl']),
+                  ('generic_ND_FD.GenericNDimFinDiff', lambda d: dict(nvars=d['nvars'], coeff=d['nu'], derivative=2, order=d['order'], bc=d['bc'], freq=d['freq']),
+                   ['full'])]),
+    dict(name='advection', state=st_uniform(),
+         grid=dict(nvars=[16], c=[0.8, 1.0, -0.37], order=[3, 1, 5], stencil_type=['upwind', 'center'], freq=[2]),
+         members=[('AdvectionEquation_ND_FD.advectionNd', lambda d: dict(d, order=d['order'] + (1 if d['stencil_type'] == 'center' else 0)), ['full']),
+                  ('generic_ND_FD.GenericNDimFinDiff',
+                   lambda d: dict(nvars=d['nvars'], coeff=-d['c'], derivative=1, order=d['order'] + (1 if d['stencil_type'] == 'center' else 0),
+                                  stencil_type=d['stencil_type'], bc='periodic', freq=d['freq']), ['full'])]),
+    dict(name='advdiff-fft', state=st_uniform(),
+         grid=dict(nvars=[16, 12], c=[0.7, 1.0, -0.31], nu=[0.05, 0.02, 0.013], freq=[2], L=[1.0, 1.7]),
+         members=[('AdvectionDiffusionEquation_1D_FFT.advectiondiffusion1d_implicit', _same, ['full']),
+                  ('AdvectionDiffusionEquation_1D_FFT.advectiondiffusion1d_imex', _same, ['impl', 'expl'])]),
+    dict(name='ac1d-front', state=st_front,
+         grid=dict(nvars=[31, 15], eps=[0.04, 0.07], dw=[-0.04, -0.013, 0.021], interval=[(-0.5, 0.5), (-0.3, 0.8)]),
+         members=[(AC1 + 'allencahn_front_fullyimplicit', _same, ['full']),
+                  (AC1 + 'allencahn_front_semiimplicit', _same, ['impl', 'expl'])]),
+    dict(name='ac1d-periodic', state=st_front,
+         grid=dict(nvars=[32, 16], eps=[0.04, 0.07], dw=[-0.04, -0.013, 0.021], interval=[(-0.5, 0.5), (-0.3, 0.8)], radius=[0.25, 0.21]),
+         members=[(AC1 + 'allencahn_periodic_fullyimplicit', _same, ['full']),
+                  (AC1 + 'allencahn_periodic_semiimplicit', _same, ['impl', 'expl']),
+                  (AC1 + 'allencahn_periodic_multiimplicit', _same, ['comp1', 'comp2'])]),
+    dict(name='ac2d-fd', state=st_phase2d,
+         grid=dict(nvars=[(8, 8), (6, 6)], eps=[0.1, 0.07, 0.04], nu=[2, 3, 5], order=[2, 4], radius=[0.25, 0.21]),
+         members=[(AC2 + 'allencahn_fullyimplicit', _same, ['full']),
+                  (AC2 + 'allencahn_semiimplicit', _same, ['impl', 'expl']),
+                  (AC2 + 'allencahn_semiimplicit_v2', _same, ['impl', 'expl']),
+                  (AC2 + 'allencahn_multiimplicit', _same, ['comp1', 'comp2']),
+                  (AC2 + 'allencahn_multiimplicit_v2', _same, ['comp1', 'comp2'])]),
+    dict(name='ac2d-fft', state=st_phase2d,
+         grid=dict(nvars=[(8, 8), (6, 6)], eps=[0.1, 0.07, 0.04], nu=[2, 3, 5], radius=[0.25, 0.21], L=[1.0, 1.3]),
+         members=[('AllenCahn_2D_FFT.allencahn2d_imex', _same, ['impl', 'expl']),
+                  ('AllenCahn_2D_FFT.allencahn2d_imex_stab', _same, ['impl', 'expl'])]),
+    dict(name='quench', state=st_quench,
+         grid=dict(nvars=[32, 24], Cv=[1000.0, 730.0], K=[1000.0, 410.0], u_thresh=[0.03, 0.025], u_max=[0.06, 0.071], Q_max=[1.0, 0.83],
+                   leak_range=[(0.45, 0.55), (0.31, 0.62)], leak_type=['linear', 'exponential'], leak_transition=['step', 'Gaussian'],
+                   order=[2, 4], bc=['neumann-zero', 'dirichlet-zero', 'periodic']),
+         members=[('Quench.Quench', _same, ['full']), ('Quench.QuenchIMEX', _same, ['impl', 'expl'])]),
+    dict(name='testeq', state=st_uniform(),
+         grid=dict(seed=[2, 5, 9], n=[4, 3]),
+         members=[('TestEquation_0D.testequation0d', lambda d: dict(lambdas=_lam(d['seed'], d['n']) + _lam(d['seed'] + 100, d['n'])), ['full']),
+                  ('TestEquation_0D.test_equation_IMEX',
+                   lambda d: dict(lambdas_implicit=_lam(d['seed'], d['n']), lambdas_explicit=_lam(d['seed'] + 100, d['n'])), ['impl', 'expl'])]),
+    dict(name='swfw', state=st_uniform(),
+         grid=dict(seed=[3, 7], ls=[-1.0 + 0.5j, 0.37j - 0.21]),
+         members=[('TestEquation_0D.testequation0d', lambda d: dict(lambdas=_lam(d['seed'], 3) + d['ls']), ['full']),
+                  ('FastWaveSlowWave_0D.swfw_scalar', lambda d: dict(lambda_s=np.array([d['ls']]), lambda_f=_lam(d['seed'], 3)), ['impl', 'expl'])]),
+    dict(name='polynomial', state=st_uniform(),
+         grid=dict(degree=[4, 3, 6], seed=[5, 77]),
+         members=[('polynomial_test_problem.polynomial_testequation', _same, ['full']),
+                  ('polynomial_test_problem.polynomial_testequation_IMEX', _same, ['impl', 'expl'])]),
+    dict(name='battery', state=st_uniform(0.0, 2.0),
+         grid=dict(Vs=[5.0, 4.3], Rs=[0.5, 0.37], R=[1.0, 0.73], L=[1.0, 2.1], C=[1.0, 1.7], alpha=[1.2, 1.45], V_ref=[1.0, 0.83]),
+         members=[('Battery.battery_implicit', lambda d: dict(d, C=_arr([d['C']]), V_ref=_arr([d['V_ref']])), ['full']),
+                  ('Battery.battery', lambda d: dict(d, C=_arr([d['C']]), V_ref=_arr([d['V_ref']])), ['impl', 'expl']),
+                  ('Battery.battery_n_capacitors', lambda d: dict(d, ncapacitors=1, C=_arr([d['C']]), V_ref=_arr([d['V_ref']])), ['impl', 'expl'])]),
 ]
+
+
+def source_literals(classes):
+    """numeric literals (and their negatives) in the source of the given classes and of their base classes that live in
+    pySDC.implementations.problem_classes."""
+    import ast
+    import textwrap
+    lits = set()
+    seen = set()
+    for c in classes:
+        for k in c.__mro__:
+            if k in seen or not k.__module__.startswith('pySDC.implementations.problem_classes'):
+                continue
+            seen.add(k)
+            try:
+                tree = ast.parse(textwrap.dedent(inspect.getsource(k)))
+            except Exception:
+                continue
+            for node in ast.walk(tree):
+                if isinstance(node, ast.Constant) and isinstance(node.value, (int, float)) and not isinstance(node.value, bool):
+                    lits.add(float(node.value))
+                    lits.add(-float(node.value))
+    return lits
+
+
+def draw_params(grid, rng, literals=None):
+    """one value per parameter; with `literals` given, scalar parameters avoid every literal of the source when the grid allows."""
+    d, forced = {}, []
+    for k in sorted(grid):
+        cand = list(grid[k])
+        if literals is not None:
+            nl = [v for v in cand if isinstance(v, (int, float)) and not isinstance(v, bool) and float(v) not in literals]
+            if nl:
+                cand = nl
+                forced.append(k)
+        d[k] = rng.choice(cand)
+    return d, forced
 
 
 def quiet():
